@@ -25,9 +25,54 @@ reg("C11",
     assumptions=["erase+set of a live key within one engine cycle is netted by the source dictionary (documented slot protocol): the reduce node sees an update"],
     )
 
+# ---- C11_wide: reductions over more than 64 live elements (second..fourth word of the combiner-position bitmap) ----
+# configuration tuples {COLL, NLO, NHI, GROW (0 one cycle, 1 one cycle per capacity boundary, 2 one key per cycle, 3 three keys then N), M, ORDER}
+_WQUICK = "{0,65,67,0,40,0},{0,66,67,1,40,1},{0,66,66,2,45,0},{0,66,66,3,33,0},{2,66,67,1,40,0},{1,70,70,0,40,0},{0,132,132,1,50,0}"
+_WTHOROUGH = ("{0,65,70,0,40,0},{0,65,70,0,40,1},{0,65,70,1,40,0},{0,65,70,1,33,1},{0,65,70,2,45,0},{0,65,70,3,33,0},{0,65,70,3,50,1},"
+              "{2,65,70,0,40,0},{2,65,70,1,40,0},{2,65,70,2,40,0},{1,65,70,0,40,0},{1,65,70,1,40,0},"
+              "{0,129,134,0,50,0},{0,129,134,1,40,1},{0,132,133,3,60,0},{2,129,134,1,40,0},{1,132,134,0,40,0}")
+reg("C11",
+    name="C11_wide", src="harness/C11_wide.cpp", anchor_files=_ANCH + ["include/hgraph/types/utils/slot_bitmap.h"],
+    quick=dict(defs=dict(CONFIGS=_WQUICK, TSLW=73, ZLIST="0,2", NPAT=7, NRM=4, NSHR=2),
+               symx=dict(shards=16, **{"max-wall": 900, "shard-depth": 4, "query-timeout-ms": 120000})),
+    thorough=dict(defs=dict(CONFIGS=_WTHOROUGH, TSLW=137, ZLIST="0,1,2", NPAT=7, NRM=4, NSHR=3),
+                  symx=dict(shards=16, **{"max-wall": 3000, "shard-depth": 4, "query-timeout-ms": 120000})),
+    reach=["end", "over_64_live", "over_128_live", "grown_over_64_in_one_cycle", "grown_incrementally_across_64", "grown_skipping_capacities",
+           "tick_under_second_word_combiner", "tick_under_third_or_fourth_word_combiner", "ticks_under_deepest_combiners_of_two_words_same_cycle",
+           "ticks_under_positions_64w_minus_1_and_64w", "every_element_ticks", "nontail_key_removed_over_64",
+           "nontail_key_removed_and_new_key_added_same_cycle", "nontail_key_removed_and_other_key_updated_same_cycle",
+           "two_nontail_keys_removed_same_cycle", "shrunk_to_exactly_64_in_wide_tree", "shrunk_below_64",
+           "tick_under_second_word_after_shrink_below_64", "deep_tick_and_structural_change_same_cycle", "survivor_erased_and_set_in_shrink_cycle",
+           "singleton_with_zero_in_wide_tree", "zero_reticks_for_singleton_in_wide_tree", "shrunk_to_empty_from_wide", "regrown_over_64_after_empty",
+           "tick_under_second_word_after_regrow", "wide_list_grows_leaving_gaps", "idle_cycle"],
+    bounds="wire_reduce_tsd -> reduce_node with a wrapping-add combiner sub-graph over MORE THAN 64 live elements (leaf capacity 128 and 256: combiner "
+           "positions 64..254, i.e. the second to fourth word of the per-cycle candidate bitmap); every element value and every zero value an unconstrained "
+           "symbolic int64; result, validity and the value last delivered to a consumer checked after every engine cycle.  One scripted history per path.  "
+           "TSD<int,TS<int>>: grow to N keys (GROW 0: in one cycle; 1: one cycle per capacity boundary 1,2,3,5,9,17,33,64,65(,128,129),N; 2: one key per "
+           "cycle; 3: three keys, then N), keys ascending or descending -> tick one of 6 (7 at capacity 256) leaf patterns placed around the bitmap word "
+           "boundary (first bit of the top word alone; positions 64w-1 and 64w; lowest deepest position + tail; last leaf of the left half + first of the "
+           "right half; both children of one deep combiner + neighbour; every element; one deepest position in each of three words) -> remove a non-tail "
+           "key (alone | and add a new key | and update another key | two keys) -> shrink to M < 64 in one cycle (head leaves | tail leaves | every other "
+           "leaf) with an erase+set of a survivor -> tick the pattern again (capacity is monotonic) -> shrink to one key -> idle cycle (only a re-ticking "
+           "zero ticks) -> shrink to empty -> regrow to N in one cycle (same keys, incremental structural rebuild in the wide tree) -> tick the pattern "
+           "again.  Fixed TSL<TS<int>,TSLW> and dynamic TSL<TS<int>>: grow (same schedules, ascending) -> pattern -> next pattern (the dynamic list "
+           "also grows by three elements, two of them invalid) -> idle -> every element ticks.  Enumerated: configuration {collection, NLO, NHI, GROW, M, "
+           "ORDER}, N in NLO..NHI, zero mode, pattern, removal variant, shrink style: quick " + _WQUICK + " with zero modes {none, re-ticking every "
+           "cycle}, shrink styles {head, tail}; thorough " + _WTHOROUGH + " with zero modes {none, constant, re-ticking}, all three shrink styles",
+    outside="more than 134 live elements (leaf capacity 512 and above: more than four bitmap words); everything listed as outside for C11_reduce "
+            "(non-commutative combiners, lifted-kernel fast path, ordered reduce, self-scheduling combiner graphs [the full-scan branch of "
+            "prepare_reduce_evaluation_positions], pause/resume under mesh, REF re-pointing); per-key free scripting at this width (done by C11_reduce "
+            "up to 9 leaves): here one scripted history per enumerated choice tuple",
+    assumptions=["erase+set of a live key within one engine cycle is netted by the source dictionary (documented slot protocol): the reduce node sees an update",
+                 "reach labels that name combiner positions are computed from a harness-side mirror of the node's dense leaf order (append on add, tail "
+                 "leaf moves into a removed leaf's place); the oracle does not use the mirror"],
+    )
+
 META = dict(
     level="bounded symbolic model checking of the associative reduce runtime (wire_reduce_tsd -> reduce_node: leaf reconciliation, incremental combiner tree, "
           "bank swap on growth, zero/no-zero contract, root publication) with all element and zero values symbolic: the result is proven equal to the "
-          "fold of exactly the live valid elements for every enumerated add/update/remove history over TSD, fixed TSL and dynamic TSL",
+          "fold of exactly the live valid elements for every enumerated add/update/remove history over TSD, fixed TSL and dynamic TSL; "
+          "C11_wide repeats it for scripted histories over 65..70 and 132 (thorough 129..134) live elements, where the per-cycle candidate bitmap "
+          "of combiner positions spans two to four 64-bit words",
     note="bounds in evidence coverage.harnesses[*].bounds; see notes/C11.md",
 )
